@@ -664,6 +664,15 @@ def main():
         "servers and L1s are thread_cache_factory objects (no allocation failures); the server has no session storage configured",
         "TCP delivers frames intact and in order; connection failures / reconnect are not modelled",
     ]
+    # a run against a private (mutated) tree must not leave its transcription in the shared lean/ directory
+    gen_path = os.path.join(LEAN, "Cppcms", "C10", "Gen.lean")
+    if os.path.abspath(REPO) != "/repo" and os.path.exists(gen_path):
+        import atexit
+        saved = open(gen_path).read()
+        def restore_gen():
+            if open(gen_path).read() != saved:
+                open(gen_path, "w").write(saved)
+        atexit.register(restore_gen)
     c.translate("c10.py")
     proved = c.prove(["Cppcms.C10.Props"], OBLIGATIONS, exe="c10_model")
     if thorough and proved:
